@@ -57,7 +57,8 @@ impl TermLike for SlowSpy {
 
 #[derive(Debug, Clone, Serialize, Deserialize)]
 pub struct RealCase {
-    /// 0 keeps-redrawing (1 ms), 1 disable, 2 replace, 3 finish then drop, 4 drop of the last handle, 5 manual ticks ignored
+    /// 0 keeps-redrawing (1 ms), 1 disable, 2 replace, 3 finish then drop, 4 drop of the last handle, 5 manual ticks ignored,
+    /// 6 finish, reset and enable again with the same interval
     scenario: u8,
     /// delay before the stopping call, so that it lands before / during / after the ticker's first draw
     delay_ms: u8,
@@ -88,7 +89,7 @@ fn run_real(c: &RealCase) -> CaseResult {
     let hour = Duration::from_secs(3600);
     let delay = Duration::from_millis(c.delay_ms as u64 % 60);
     let mut v = Verdict::default();
-    match c.scenario % 6 {
+    match c.scenario % 7 {
         0 => {
             pb.enable_steady_tick(Duration::from_millis(1));
             std::thread::sleep(Duration::from_millis(150));
@@ -139,6 +140,23 @@ fn run_real(c: &RealCase) -> CaseResult {
             v.nontrivial = true;
             return Ok(v);
         }
+        6 => {
+            // a bar that is finished, reset and ticked steadily again (same interval as before)
+            let d = Duration::from_millis(2 + c.manual_ticks as u64 % 4);
+            pb.enable_steady_tick(d);
+            std::thread::sleep(Duration::from_millis(20) + delay);
+            pb.finish();
+            std::thread::sleep(Duration::from_millis(40)); // the ticker notices and stops by itself
+            pb.reset();
+            pb.enable_steady_tick(d);
+            let n = spy.flushes.load(Ordering::SeqCst);
+            std::thread::sleep(Duration::from_millis(200));
+            let m = spy.flushes.load(Ordering::SeqCst);
+            ensure!(m >= n + 3, "no_steady_redraw", "after finish(); reset(); enable_steady_tick({d:?}) again the bar was redrawn only {} time(s) in 200 ms", m - n);
+            let p2 = pb.clone();
+            prompt("disable_steady_tick()", move || p2.disable_steady_tick())?;
+            v.label("finish_reset_enable_again");
+        }
         _ => {
             pb.enable_steady_tick(hour);
             // wait for the ticker's first frame
@@ -171,12 +189,12 @@ pub fn property() -> Property {
         ],
         parts: vec![Box::new(Gen::<RealCase> {
             name: "real_threads",
-            rule: "real threads: a 1 ms ticker keeps painting without manual ticks; with a 1 h ticker, disable / replace / finish+drop / last drop return promptly (the stopping call is issued 0-59 ms after enable, the terminal's flush takes 0-39 ms, so the stop lands before, during or after the ticker's first draw) and manual tick() calls paint nothing while the ticker is installed",
-            strategy: |_| (0u8..6, any::<u8>(), any::<u8>(), 0u8..8).prop_map(|(scenario, delay_ms, slow_flush_ms, manual_ticks)| RealCase { scenario, delay_ms, slow_flush_ms, manual_ticks }).boxed(),
+            rule: "real threads: a 1 ms ticker keeps painting without manual ticks; with a 1 h ticker, disable / replace / finish+drop / last drop return promptly (the stopping call is issued 0-59 ms after enable, the terminal's flush takes 0-39 ms, so the stop lands before, during or after the ticker's first draw) manual tick() calls paint nothing while the ticker is installed, and a bar that was finished, reset and given the same steady tick again is redrawn again",
+            strategy: |_| (0u8..7, any::<u8>(), any::<u8>(), 0u8..8).prop_map(|(scenario, delay_ms, slow_flush_ms, manual_ticks)| RealCase { scenario, delay_ms, slow_flush_ms, manual_ticks }).boxed(),
             cases: |t| t.pick(8, 300),
             run: run_real,
             signature: no_signature,
-            essential: &["keeps_redrawing", "disable", "replace", "finish_then_drop", "last_drop", "manual_ticks_ignored"],
+            essential: &["keeps_redrawing", "disable", "replace", "finish_then_drop", "last_drop", "manual_ticks_ignored", "finish_reset_enable_again"],
             workers: 8,
             decode: None,
         })],
